@@ -32,7 +32,8 @@ func exhaustiveCampaign(o *hlib.Opts, rn *runner, w *world) {
 	uis := []ui{{"-", "", ""}, {"u", "dev1", ""}, {"p", "dev1", "secret1"}, {"p", "dev1", "wrong"}, {"p", "dev1", ""},
 		{"p", "abcd1234", "secret1"}}
 	paths := []string{"/dns-query", "/dns-query/dev1", "/dns-query/ABCD1234", "/resolve/otr-prof1-My-Phone", "/other/dev1"}
-	snis := []string{"", "dev1.d.dns.example", "ABCD1234.D.DNS.example", "x.dev1.d.dns.example", "otr-prof2-tv.dev.example.org"}
+	snis := []string{"", "dev1.d.dns.example", "ABCD1234.D.DNS.example", "x.dev1.d.dns.example", "otr-prof2-tv.dev.example.org",
+		"dev1.dns.example"}
 	type ed struct {
 		opt  bool
 		opts []eopt
@@ -61,7 +62,7 @@ func exhaustiveCampaign(o *hlib.Opts, rn *runner, w *world) {
 			continue
 		}
 		use := dbs
-		if v.proto == agd.ProtoDNSCrypt || v.proto == agd.ProtoInvalid {
+		if v.proto == agd.ProtoDNSCrypt || v.proto == agd.ProtoInvalid || v.profilesOff {
 			use = dbs[:2]
 		}
 		for _, db := range use {
@@ -70,5 +71,5 @@ func exhaustiveCampaign(o *hlib.Opts, rn *runner, w *world) {
 	}
 	rn.r.Exhaustive = true
 	rn.r.Count("exhaustive.product_done")
-	rn.r.Notes = append(rn.r.Notes, "thorough tier enumerated the full product of 6 userinfo x 5 paths x 5 server names x 4 EDNS x 3 local x 2 remote values over every server variant (bind layouts 0,2,3) and 12 database states")
+	rn.r.Notes = append(rn.r.Notes, "thorough tier enumerated the full product of 6 userinfo x 5 paths x 6 server names x 4 EDNS x 3 local x 2 remote values over every server variant (bind layouts 0,2,3; with and without profiles) and 12 database states")
 }
